@@ -640,7 +640,7 @@ def streams(tier, rng):
             a = [ids, flags, [0, 0, 5], [1, 0x61], [1, 0x62], [1, n]] + [[rng.choice(h8.TLV_TYPES)] + _val(rng.choice([0, 0, 1])) for _ in range(n)]
             cases.append((1354, a + [[]]))
     for k in range(0, 5):                        # total length: k options of 257 octets + a name of n octets
-        for n in range(k % 7, 256, 1 if big else 7):
+        for n in range(k % 9, 256, 1 if big else 9):
             ids, flags = _rand_conf(rng)
             a = [ids, flags, [1, 3, 5], [1] + _nm(n), [1, 0x62], [1, k]] + [[2] + _val(255) for _ in range(k)]
             cases.append((1354, a + [[]]))
@@ -661,11 +661,12 @@ def streams(tier, rng):
     yield "exh_sizes_metadata", "exact", cases
     cases = []
     for n in range(0, 257):                      # fault-location length; first-name length of one response
-        ids, flags = _rand_conf(rng)
-        a = [ids, flags, [rng.choice([4, 6, 15]), 0, 1], [1] + _val(n), [0]]
-        cases.append((1344, a + [[]]))
-        if n > 250:
-            cases.append((1340, a)); cases.append((1341, a))
+        if big or n <= 16 or n >= 246 or n % 3 == 0 or n % 64 in (63, 1):
+            ids, flags = _rand_conf(rng)
+            a = [ids, flags, [rng.choice([4, 6, 15]), 0, 1], [1] + _val(n), [0]]
+            cases.append((1344, a + [[]]))
+            if n > 250:
+                cases.append((1340, a)); cases.append((1341, a))
         if n <= 252 and (big or n % 2 or n > 240):
             ids, flags = _rand_conf(rng)
             r = [0, 0, n, 0] + _nm(n)
@@ -690,7 +691,7 @@ def streams(tier, rng):
     yield "exh_sizes_finished", "exact", cases
     # 8. random PDUs: pack, round trip, round trip with look-alike suffixes, decode of layout ++ suffix
     cases = []
-    for _ in range(6000 if big else 900):
+    for _ in range(6000 if big else 800):
         a = _rand_fin(rng)
         cases.append((1341, a)); cases.append((1344, a + [[]]))
         sfx = _suffix(rng)
